@@ -34,7 +34,7 @@ def build_obs(tier, tables):
     # include files: opened == closed on every failure exit, exactly the included file is closed at its end
     obs += push_obs("c07") + [o for o in pop_obs("c07") if "own" in o.key]
     # what is left open when a parse is aborted inside an included file (recorded finding)
-    obs += [o for o in rest_obs("c07", depths=(1,)) if "-sc0-qs0-" in o.key]
+    obs += [o for o in rest_obs("c07", depths=(1, 3)) if "-sc0-qs0-" in o.key]
     return obs
 
 
